@@ -151,6 +151,15 @@ Theorem C06_macroman_matches_apple_table : forall b c,
 Proof. exact macroman_matches_apple_table. Qed.
 Print Assumptions C06_macroman_matches_apple_table.
 
+(* KNOWN FINDING C06-macroman-coverage: the table is PDF's MacRomanEncoding; exactly these 15 bytes
+   of Mac OS Roman have no character (the round-trip theorems above hold on the other 241) *)
+Theorem C06_macroman_undecoded : forall b,
+  0 <= b < 256 ->
+  (macroman_to_char b = None <->
+   In b [173; 176; 178; 179; 182; 183; 184; 185; 186; 189; 195; 197; 198; 215; 240]).
+Proof. exact macroman_undecoded. Qed.
+Print Assumptions C06_macroman_undecoded.
+
 (* ---- 4. sub-table preference and encoding dispatch ----------------------------------------- *)
 
 (* the cascade regenerated from font.rs is the documented preference list *)
@@ -274,6 +283,10 @@ Proof. vm_compute. reflexivity. Qed.
 Example macroman_127 : macroman_to_char 127 = Some 127 /\ char_to_macroman 127 = Some 127.
 Proof. vm_compute. split; reflexivity. Qed.
 Example macroman_246 : macroman_to_char 246 = Some 710 /\ char_to_macroman 710 = Some 246 /\ char_to_macroman 94 = Some 94.
+Proof. vm_compute. repeat split; reflexivity. Qed.
+
+(* witness of the known finding: byte 185 is U+03C0 in Apple's table and has no character here *)
+Example macroman_pi_gap : macroman_ref 185 = 960 /\ macroman_to_char 185 = None /\ char_to_macroman 960 = None.
 Proof. vm_compute. repeat split; reflexivity. Qed.
 
 (* selection: a (1,0) record before a (3,1) record: the Windows Unicode BMP sub-table wins *)
